@@ -269,10 +269,48 @@ def check_collision_detector(df):
     if not calls:
         return 'does not compute hash_name of the zone names'
     # the raise must be control dependent on a lookup of the hash in the table of seen hashes
+    hv = set()
+    for x in ast.walk(n):
+        if isinstance(x, ast.Assign) and len(x.targets) == 1 and isinstance(x.targets[0], ast.Name) and x.value in calls:
+            hv.add(x.targets[0].id)
+
+    def is_hash(k):
+        return (isinstance(k, ast.Name) and k.id in hv) or k in calls
+
+    probes, stores, probe_vars = {}, {}, {}
+    for x in ast.walk(n):
+        if isinstance(x, ast.Call) and isinstance(x.func, ast.Attribute) and isinstance(x.func.value, ast.Name) and x.args:
+            if x.func.attr == 'get':
+                probes.setdefault(x.func.value.id, []).append(x.args[0])
+            elif x.func.attr in ('add', 'setdefault'):
+                stores.setdefault(x.func.value.id, []).append(x.args[0])
+        elif isinstance(x, ast.Compare) and len(x.ops) == 1 and isinstance(x.ops[0], (ast.In, ast.NotIn)) and isinstance(x.comparators[0], ast.Name):
+            probes.setdefault(x.comparators[0].id, []).append(x.left)
+        elif isinstance(x, ast.Subscript) and isinstance(x.value, ast.Name):
+            (stores if isinstance(x.ctx, ast.Store) else probes).setdefault(x.value.id, []).append(x.slice)
+        if isinstance(x, ast.Assign) and len(x.targets) == 1 and isinstance(x.targets[0], ast.Name):
+            for y in ast.walk(x.value):
+                if isinstance(y, ast.Call) and isinstance(y.func, ast.Attribute) and y.func.attr == 'get' and isinstance(y.func.value, ast.Name):
+                    probe_vars[x.targets[0].id] = y.func.value.id
+    tables_ = [t for t in probes if t in stores and any(is_hash(k) for k in probes[t] + stores[t])]
+    if not tables_:
+        return 'no table of seen hashes is both probed and filled with hash_name(name)'
+    for t in tables_:
+        for k in probes[t]:
+            if not is_hash(k):
+                return 'the seen table %s is probed with %s, which is not the hash of the name' % (t, ast.unparse(k))
+        for k in stores[t]:
+            if not is_hash(k):
+                return ('the seen table %s is probed with the hash but filled under the key %s: no later name can ever be found in it, '
+                        'so two names with one id pass unnoticed' % (t, ast.unparse(k)))
     for r in raises:
         p = _parent_if(n, r)
         if p is None:
             return 'raise is not guarded by a test of the seen-hash table'
+        names = {y.id for y in ast.walk(p.test) if isinstance(y, ast.Name)}
+        direct = any(isinstance(y, ast.Name) and y.id in tables_ for y in ast.walk(p.test))
+        if not direct and not any(probe_vars.get(v) in tables_ for v in names):
+            return 'the test guarding the raise (%s) does not consult the table of seen hashes' % ast.unparse(p.test)
     return None
 
 
@@ -307,6 +345,11 @@ SELFTEST = [
     dict(id='registry-unsorted', file='tools/zonedb/argenerator.py',
          find="for zone_name, eras in sorted(self.zones_map.items()):\n            name = normalize_name(zone_name)",
          replace="for zone_name, eras in self.zones_map.items():\n            name = normalize_name(zone_name)", rule='G3'),
+    dict(id='collision-table-keyed-by-name', file='tools/tzdb/transformer.py', find='                hashes[h] = name', replace='                hashes[name] = h', rule='G4'),
+    dict(id='collision-guard-tests-name', file='tools/tzdb/transformer.py', find='            if colliding_name:\n                raise Exception("Hash collision', replace='            if not name:\n                raise Exception("Hash collision', rule='G4'),
+    dict(id='collision-membership-spelling-silent', file='tools/tzdb/transformer.py', regex=True,
+         find=r'            colliding_name = hashes.get\(h\)\n            if colliding_name:\n(                raise Exception\("Hash collision[^\n]*\n)            else:\n                hashes\[h\] = name',
+         replace=r'            if h in hashes:\n\1            hashes[h] = name', expect='silent'),
     dict(id='collision-check-dropped', file='tools/tzdb/transformer.py',
          find='zones_map = self._detect_hash_collisions(zones_map)', replace='pass', rule='G4'),
 ]
